@@ -10,6 +10,7 @@ using namespace vfc;
 using vf::CaseResult;
 using vf::Rng;
 
+static Circuit smallCircuit(Rng &rng);
 static void effortProbe(int e, CaseResult &r) {
   bool valid = e >= 1 && e <= 9;
   if (r.needSample()) r.sample = vf::J::obj().kv("probe", "ColoquinteParameters(effort)").kv("effort", e).str();
@@ -33,7 +34,29 @@ static void effortProbe(int e, CaseResult &r) {
   }
   if (valid && threw) r.fail("C19:valid-effort-rejected", "effort " + std::to_string(e) + ": " + what);
   if (!valid && !threw) r.fail("C19:invalid-effort-accepted", "effort " + std::to_string(e));
-  // also the per-stage parameter structs a caller can construct directly must not read out of bounds silently
+  // the entry points that take the effort itself (place, placeGlobal, legalize, placeDetailed with an int)
+  {
+    Rng crng(0x5eed ^ (uint64_t)(uint32_t)e);
+    Circuit c0 = smallCircuit(crng);
+    static const char *en[4] = {"place", "placeGlobal", "legalize", "placeDetailed"};
+    for (int entry = 0; entry < 4; ++entry) {
+      if (valid && entry < 2 && e > 3) continue;  // keep the window cheap: global placement only at low efforts here
+      Circuit c = c0;
+      bool t2 = false;
+      try {
+        if (entry == 0) c.place(e); else if (entry == 1) c.placeGlobal(e); else if (entry == 2) c.legalize(e); else c.placeDetailed(e);
+      } catch (const std::exception &) {
+        t2 = true;
+      } catch (...) {
+        r.fail("C19:non-std-exception", std::string(en[entry]) + "(" + std::to_string(e) + ")");
+        t2 = true;
+      }
+      if (!valid && !t2) r.fail("C19:invalid-effort-accepted", std::string(en[entry]) + "(" + std::to_string(e) + ") returned");
+      if (!valid && (!samePlacement(c0, c) || !frameDiff(c0, c, true).empty())) r.fail("C19:invalid-effort-did-work", std::string(en[entry]) + "(" + std::to_string(e) + ") modified the circuit");
+      if (valid) r.count(t2 ? "int_effort_entry_threw" : "int_effort_entry_returned");
+      else r.count("int_effort_entry_refused");
+    }
+  }
   r.nontrivial = true;
   r.sig = "e" + std::to_string(std::max(-17, std::min(33, e))) + (e < -16 ? "lo" : e > 32 ? "hi" : "");
 }
